@@ -36,7 +36,13 @@ def EXHAUSTIVE(tier):
 def cases(tier, seed):
     L = 3 if tier == "quick" else 4
     nsym = 11
-    seqs = [list(s) for n in range(1, L + 1) for s in itertools.product(range(nsym), repeat=n)]
+    # without a prefix almost every click is (correctly) ignored because the modifier is up: those sequences are enumerated up to
+    # length L-1 only; with the modifier already held (prefix symbol 0 = shift down) all sequences up to length L are enumerated
+    seqs = [list(s) for n in range(1, L) for s in itertools.product(range(nsym), repeat=n)]
+    seqs += [[0] + list(s) for n in range(1, L) for s in itertools.product(range(nsym), repeat=n)]
+    # length L with the modifier held: every sequence in the thorough tier; in the quick tier those that start with two picks
+    # (symbols 2..7), which is where pairing and deselection can go wrong
+    seqs += [[0] + list(s) for s in itertools.product(range(nsym), repeat=L) if tier == "thorough" or (2 <= s[0] <= 7 and 2 <= s[1] <= 7)]
     out = [{"cls": "enumerated", "seqs": seqs[c0:c0 + 50], "k": c0} for c0 in range(0, len(seqs), 50)]
     nr = 48 if tier == "quick" else 900
     out += [{"cls": "random", "plot": ["SSI", "pLSCF", "FDD"][k % 3], "k": k} for k in range(nr)]
@@ -355,7 +361,15 @@ def run_random(ctx, case):
 
     def rand_actions(s):
         s.key(True)
-        for _ in range(6):
+        # purposeful opening: a few picks at different orders, in random frequency order, then a deselection
+        for k in rng.permutation(len(fn))[: int(rng.integers(2, len(fn) + 1))]:
+            yy = float(rng.uniform(-40, -1)) if plot == "FDD" else float(rng.integers(max(2, ncol - 7), ncol) + rng.uniform(-0.3, 0.3))
+            s.click(1, float(fn[k] + rng.uniform(-0.4, 0.4)), yy)
+        if s.ok and rng.random() < 0.8:
+            s.click(int(rng.choice([2, 2, 3])), float(rng.choice(fn) + rng.uniform(-1, 1)), -10.0 if plot == "FDD" else 3.0)
+        for _ in range(4):
+            if not s.ok:
+                break
             u = rng.random()
             if u < 0.08:
                 s.key(False)
